@@ -135,6 +135,10 @@ var c15Windows = []c15Window{
 }
 
 func c15Harness(maxLen int, fourth bool) Harness {
+	schemeMaxLen := 2
+	if maxLen >= 4 {
+		schemeMaxLen = 3
+	}
 	return func(c *Ctx) {
 		n := 1 + c.Free("history_length", maxLen)
 		var history [][4]int
@@ -153,6 +157,14 @@ func c15Harness(maxLen int, fourth bool) Harness {
 			names = append(names, fmt.Sprintf("%d%d%d%d", st[0], st[1], st[2], st[3]))
 		}
 		hist := strings.Join(names, " ")
+		// the feed-time schemes multiply the space by four: histories of <= 2 feeds only (quick);
+		// a history of two feeds already contains "updated, then missing"
+		feedTimeScheme = 0
+		if n <= schemeMaxLen {
+			feedTimeScheme = c.Choose("feed_time_scheme", 4)
+		}
+		defer func() { feedTimeScheme = 0 }()
+		hist += fmt.Sprintf(" [feed times: scheme %d]", feedTimeScheme)
 		c.Input(hash64(hist), n >= 2, func() string {
 			return "history (per feed: state of T1,T2,T3,T4; 0 absent, 1 unassigned, 2 vehicle v1, 3 vehicle v2): " + hist
 		})
@@ -283,7 +295,7 @@ func init() {
 	register(&Check{
 		ID:    "C15",
 		Level: "model_checking",
-		Rule: "three trip identities (T1, T2 share start instant and id suffix -> one UID; T3 other suffix and start) each per feed in {absent, unassigned, vehicle v1, vehicle v2} = 64 feed symbols; ALL histories of <= 3 feeds (thorough <= 4) x 5 windows; plus a fourth identity T4 (same trip id and start date as T1, another start time) in {absent, unassigned, v1}: 192 symbols, ALL histories of <= 2 (thorough 3) feeds x 5 windows; " +
+		Rule: "three trip identities (T1, T2 share start instant and id suffix -> one UID; T3 other suffix and start) each per feed in {absent, unassigned, vehicle v1, vehicle v2} = 64 feed symbols; ALL histories of <= 3 feeds (thorough <= 4) x 5 windows, histories of <= 2 (thorough 3) feeds additionally under 4 feed-time schemes (60 s apart, all equal, no timestamps, decreasing); plus a fourth identity T4 (same trip id and start date as T1, another start time) in {absent, unassigned, v1}: 192 symbols, ALL histories of <= 2 (thorough 3) feeds x 5 windows; " +
 			"non-trivial = distinct histories of >= 2 feeds; oracle = reference accountant compared field by field (UID, id fields, vehicle, last observed, marked past, update count, stop-level marks), order and uniqueness included",
 		Assumptions: []string{"feeds list their trips in identifier order, as ParseRealtime produces them", "feed times are 60 s apart starting at a fixed instant"},
 		Scenarios: func(tier string) []*Scenario {
@@ -291,8 +303,8 @@ func init() {
 			if tier == "thorough" {
 				n = 4
 			}
-			return []*Scenario{{Name: fmt.Sprintf("all-histories<=%d", n), Bound: -1, Run: c15Harness(n, false)},
-				{Name: fmt.Sprintf("four-identities<=%d", n-1), Bound: -1, Run: c15Harness(n-1, true)}}
+			return []*Scenario{{Name: fmt.Sprintf("all-histories<=%d", n), Bound: 1, Run: c15Harness(n, false)},
+				{Name: fmt.Sprintf("four-identities<=%d", n-1), Bound: 1, Run: c15Harness(n-1, true)}}
 		},
 	})
 }
